@@ -24,6 +24,8 @@ import (
 	"time"
 
 	"github.com/openGemini/openGemini/lib/config"
+	"github.com/openGemini/openGemini/lib/errno"
+	"github.com/openGemini/openGemini/lib/logger"
 	"github.com/openGemini/openGemini/lib/metaclient"
 	"github.com/openGemini/openGemini/lib/netstorage"
 	"github.com/openGemini/openGemini/lib/util/lifted/influx/influxql"
@@ -67,10 +69,10 @@ func (c c11Config) String() string {
 func (c c11Config) dur() int64 { return int64(c.DurH) * int64(time.Hour) }
 
 // times: B0 = base, B1 = base+d, B2 = base+2d, S = split time of the re-sharding (inside [B1,B2)).
-func (c c11Config) b(i int) int64  { return c11Base + int64(i)*c.dur() }
-func (c c11Config) split() int64   { return c.b(1) + c.dur()/2 }
-func (c c11Config) ptNum() int     { return c.Nodes * c.PtPerNode }
-func (c c11Config) isRange() bool  { return c.Sharding == "range" }
+func (c c11Config) b(i int) int64 { return c11Base + int64(i)*c.dur() }
+func (c c11Config) split() int64  { return c.b(1) + c.dur()/2 }
+func (c c11Config) ptNum() int    { return c.Nodes * c.PtPerNode }
+func (c c11Config) isRange() bool { return c.Sharding == "range" }
 func (c c11Config) hasKey(k string) bool {
 	for _, x := range c.Key {
 		if x == k {
@@ -253,6 +255,7 @@ func c11NewWorld(c c11Config) *c11World {
 	w.mc = &c11Meta{Client: cl, data: data}
 	w.store = &c11Store{sent: map[int][]uint64{}}
 	w.pw = NewPointsWriter(5 * time.Second)
+	w.pw.logger = logger.NewLogger(errno.ModuleCoordinator).SetZapLogger(zap.NewNop())
 	w.pw.MetaClient = w.mc
 	w.pw.TSDBStore = w.store
 	w.mapper = &c11Mapper{csm: &ClusterShardMapper{MetaClient: cl, Logger: w.pw.logger}}
@@ -389,6 +392,9 @@ func c11Atoms(thorough bool) []*c11Atom {
 		{Text: "time >= B1", Time: func(c c11Config) (int64, int64, string) {
 			return c.b(1), c11MaxTime, fmt.Sprintf("time >= %d", c.b(1))
 		}},
+		{Text: "time <= B1", Time: func(c c11Config) (int64, int64, string) {
+			return c11MinTime, c.b(1), fmt.Sprintf("time <= %d", c.b(1))
+		}},
 	}
 	if thorough {
 		at = append(at,
@@ -506,6 +512,31 @@ func (n *c11Cond) matches(c c11Config, p c11Point) bool {
 	return n.eval3(p) != 0
 }
 
+// c11Matcher is matches() tabulated for one (condition, configuration): the residual condition depends only on
+// (tags, usage), the time range only on the configuration. Points are laid out as time x tag combo x usage.
+type c11Matcher struct {
+	min, max int64
+	truth    [][2]bool
+}
+
+func (n *c11Cond) matcher(c c11Config) c11Matcher {
+	m := c11Matcher{truth: make([][2]bool, len(c11TagCombos))}
+	m.min, m.max = n.timeRange(c)
+	for ci, tc := range c11TagCombos {
+		for ui, u := range []int{0, 2} {
+			m.truth[ci][ui] = n.eval3(c11Point{Host: tc[0], Region: tc[1], Usage: u}) != 0
+		}
+	}
+	return m
+}
+
+func (m c11Matcher) matches(pid int, p c11Point) bool {
+	if p.T < m.min || p.T > m.max {
+		return false
+	}
+	return m.truth[(pid/2)%len(c11TagCombos)][pid%2]
+}
+
 func (n *c11Cond) atoms() int {
 	if n.Atom != nil {
 		return 1
@@ -513,9 +544,9 @@ func (n *c11Cond) atoms() int {
 	return n.L.atoms() + n.R.atoms()
 }
 
-// c11Conds enumerates every tree of <= 3 atoms. Three texts exist for three atoms: "A o B p C" (the parser's
-// precedence decides: AND binds tighter than OR, equal operators associate to the left), "(A o B) p C", "A o (B p C)".
-// Each is generated as (tree, text-form); the tree for the unparenthesised text is built with that precedence.
+// c11Conds enumerates every tree of <= 3 atoms. Three texts exist for three atoms: "A o B p C" (the grammar's
+// precedence decides what the query means, see below), "(A o B) p C", "A o (B p C)".
+// Each is generated as (tree, text-form).
 type c11CondCase struct {
 	tree  *c11Cond
 	plain bool // render without the inner parentheses (A o B p C)
@@ -543,12 +574,9 @@ func c11Conds(atoms []*c11Atom) []c11CondCase {
 						left := &c11Cond{Op: p, L: &c11Cond{Op: o, L: leaf(a), R: leaf(b)}, R: leaf(c)}
 						right := &c11Cond{Op: o, L: leaf(a), R: &c11Cond{Op: p, L: leaf(b), R: leaf(c)}}
 						out = append(out, c11CondCase{tree: left}, c11CondCase{tree: right})
-						// plain text "a o b p c": right-nested only for "a OR b AND c"
-						if o == "OR" && p == "AND" {
-							out = append(out, c11CondCase{tree: right, plain: true})
-						} else {
-							out = append(out, c11CondCase{tree: left, plain: true})
-						}
+						// plain text "a o b p c": the production grammar (sql.y: %left AND OR) gives AND and OR the
+						// same precedence and associates to the left, so the query's condition is (a o b) p c
+						out = append(out, c11CondCase{tree: left, plain: true})
 					}
 				}
 			}
@@ -651,7 +679,7 @@ func c11Subsets(items []string, k int) [][]string {
 
 func c11Configs(thorough bool) []c11Config {
 	var out []c11Config
-	keys := [][]string{nil, {"host"}, {"host", "region"}}
+	keys := [][]string{nil, {"host"}, {"region"}, {"host", "region"}}
 	type topo struct{ nodes, ptpn int }
 	topos := []topo{{1, 1}, {2, 1}, {3, 1}, {4, 1}}
 	if thorough {
@@ -684,16 +712,448 @@ func c11Configs(thorough bool) []c11Config {
 // ---------------------------------------------------------------------------------------------------------------
 
 type c11Case struct {
-	Cfg   c11Config `json:"cfg"`
-	Where string    `json:"where"` // configuration-independent name of the condition ("" = write side only)
+	Cfg    c11Config `json:"cfg"`
+	Where  string    `json:"where"` // configuration-independent name of the condition ("" = write side only)
+	Tier   string    `json:"tier"`
+	Direct bool      `json:"direct"` // the violation was seen by the direct TargetShards probe
+}
+
+// ---- spec-level model of "which tag-equality sets confine the condition" (only used to name the kind of a miss)
+
+type c11Cons struct {
+	unconstrained bool
+	sets          int
+}
+
+// cons: opaque = the node stands inside parentheses in the query text. The unchanged getConditionTags has no
+// ParenExpr case, so for it a parenthesised subtree carries no tag constraint.
+func (n *c11Cond) cons(opaqueParens, inner bool) (c c11Cons, absent bool) {
+	if n.Atom != nil {
+		if n.Atom.Time != nil {
+			return c11Cons{}, true
+		}
+		switch n.Atom.Text {
+		case "host = 'a'", "host = 'b'", "host = 'c'", "region = 'x'", "region = 'y'":
+			return c11Cons{sets: 1}, false
+		}
+		return c11Cons{unconstrained: true}, false
+	}
+	l, la := n.L.cons(opaqueParens, true)
+	r, ra := n.R.cons(opaqueParens, true)
+	if la {
+		return r, ra
+	}
+	if ra {
+		return l, false
+	}
+	if opaqueParens && inner {
+		return c11Cons{unconstrained: true}, false
+	}
+	if n.Op == "AND" {
+		switch {
+		case l.unconstrained:
+			return r, false
+		case r.unconstrained:
+			return l, false
+		}
+		return c11Cons{sets: l.sets * r.sets}, false
+	}
+	if l.unconstrained || r.unconstrained {
+		return c11Cons{unconstrained: true}, false
+	}
+	return c11Cons{sets: l.sets + r.sets}, false
+}
+
+// c11MissKind names the shape of the condition whose pruning lost a shard:
+//   - an OR one of whose operands carries no tag-equality constraint (the other operand's tags were used alone),
+//   - an AND whose right operand is a group of alternatives (they were merged into one tag set),
+//   - a condition that yields two or more alternative tag sets (their shard keys were built in one buffer),
+//   - anything else.
+func c11MissKind(cc c11CondCase, direct bool) string {
+	opaque := !direct && !cc.plain
+	orMixed, andOverOr := false, false
+	var walk func(x *c11Cond, inner bool)
+	walk = func(x *c11Cond, inner bool) {
+		if x.Atom != nil {
+			return
+		}
+		if opaque && inner {
+			return // the implementation does not look inside
+		}
+		l, la := x.L.cons(opaque, true)
+		r, ra := x.R.cons(opaque, true)
+		if !la && !ra {
+			if x.Op == "OR" && l.unconstrained != r.unconstrained {
+				orMixed = true
+			}
+			if x.Op == "AND" && !l.unconstrained && !r.unconstrained && r.sets > 1 {
+				andOverOr = true
+			}
+		}
+		walk(x.L, true)
+		walk(x.R, true)
+	}
+	walk(cc.tree, false)
+	c, absent := cc.tree.cons(opaque, false)
+	switch {
+	case orMixed:
+		return "or_operand_without_tag_constraint_pruned"
+	case andOverOr:
+		return "and_with_or_group_flattened"
+	case !absent && !c.unconstrained && c.sets > 1:
+		return "or_groups_share_key_buffer"
+	}
+	return "shard_with_match_pruned"
+}
+
+type c11Stored struct {
+	pid   int
+	shard uint64
+}
+
+func c11Orders(pids []int, points []c11Point) [][]int {
+	asc := append([]int(nil), pids...)
+	sort.SliceStable(asc, func(i, j int) bool { return points[asc[i]].T < points[asc[j]].T })
+	desc := make([]int, len(asc))
+	for i := range asc {
+		desc[len(asc)-1-i] = asc[i]
+	}
+	zig := make([]int, 0, len(asc))
+	for i, j := 0, len(asc)-1; i <= j; i, j = i+1, j-1 {
+		zig = append(zig, asc[i])
+		if i != j {
+			zig = append(zig, asc[j])
+		}
+	}
+	return [][]int{asc, desc, zig}
+}
+
+// c11RunConfig: write side for one configuration, then every condition that belongs to this worker.
+// owner: this worker reports the write-side verdicts of the configuration.
+func c11RunConfig(rep *kit.Report, cfg c11Config, thorough bool, owner bool, conds []c11CondCase, mine func(condIdx int) bool) {
+	w := c11NewWorld(cfg)
+	defer w.pw.Close()
+	tier := "quick"
+	if thorough {
+		tier = "thorough"
+	}
+	wcase := c11Case{Cfg: cfg, Tier: tier}
+	vio := func(kind, key, detail string) {
+		if owner {
+			rep.Violation(kind, cfg.String()+" | "+key, detail, wcase)
+		}
+	}
+	p1t, p2t := c11Times(cfg, thorough)
+	points := c11Points(p2t)
+	inP1 := map[int64]bool{}
+	for _, t := range p1t {
+		inP1[t] = true
+	}
+	var pids1, pids2 []int
+	for pid := range points {
+		pids2 = append(pids2, pid)
+		if inP1[points[pid].T] {
+			pids1 = append(pids1, pid)
+		}
+	}
+
+	stored := map[c11Stored]bool{}
+	// checkWrite validates one routing result and returns pid -> shard (accepted points only)
+	// same shard on repeat: per (point, covering group). After a re-sharding two groups cover the times after the
+	// split; the statement does not say which of them takes a new point (both are consulted by reads), so the
+	// comparison is made inside one group.
+	type pidGroup struct {
+		pid   int
+		group uint64
+	}
+	firstShard := map[pidGroup]uint64{}
+	checkWrite := func(phase string, pids []int, sent map[int][]uint64, err error) map[int]uint64 {
+		res := map[int]uint64{}
+		for _, pid := range pids {
+			p := points[pid]
+			if owner {
+				rep.Eval(1)
+			}
+			shs := sent[pid]
+			if !p.hasKey(cfg) {
+				if len(shs) == 0 {
+					if owner {
+						rep.Count("points_rejected_lacking_shard_key", 1)
+					}
+					continue
+				}
+				// accepted although a shard-key tag is missing: the statement is silent; treat as accepted point
+				if owner {
+					rep.Count("points_accepted_lacking_shard_key", 1)
+				}
+			}
+			switch {
+			case len(shs) == 0:
+				vio("point_in_no_shard", phase+" "+p.String(), fmt.Sprintf("the writer sent the point to no shard (write error: %v)", err))
+				continue
+			case len(shs) > 1:
+				vio("point_in_several_shards", phase+" "+p.String(), fmt.Sprintf("the writer sent the point to shards %v", shs))
+			}
+			g := w.groupOf(shs[0])
+			if g == nil {
+				vio("point_in_unknown_shard", phase+" "+p.String(), fmt.Sprintf("shard %d belongs to no shard group", shs[0]))
+				continue
+			}
+			if p.T < g.StartTime.UnixNano() || p.T >= g.EndTime.UnixNano() || g.Deleted() {
+				vio("point_outside_group_span", phase+" "+p.String(), fmt.Sprintf("shard %d is in group %d [%d,%d) (base%+d, base%+d) which does not contain the point's time",
+					shs[0], g.ID, g.StartTime.UnixNano(), g.EndTime.UnixNano(), g.StartTime.UnixNano()-c11Base, g.EndTime.UnixNano()-c11Base))
+			}
+			if prev, ok := firstShard[pidGroup{pid, g.ID}]; !ok {
+				firstShard[pidGroup{pid, g.ID}] = shs[0]
+			} else if prev != shs[0] {
+				vio("point_shard_not_deterministic", p.String(), fmt.Sprintf("group %d: an earlier write of the same point went to shard %d, %s goes to shard %d", g.ID, prev, phase, shs[0]))
+			}
+			res[pid] = shs[0]
+			stored[c11Stored{pid, shs[0]}] = true
+			if owner {
+				rep.Count("points_routed", 1)
+			}
+		}
+		return res
+	}
+
+	// phase 1
+	orders1 := c11Orders(pids1, points)
+	sent, err := w.write(points, orders1[0])
+	first := checkWrite("phase1", pids1, sent, err)
+
+	// re-sharding (range): split the newest group
+	if cfg.isRange() && len(cfg.Bounds) > 0 {
+		rp, _ := w.data.RetentionPolicy(c11DB, c11RP)
+		newest := rp.ShardGroups[len(rp.ShardGroups)-1]
+		if newest.StartTime.UnixNano() != cfg.b(1) {
+			panic(fmt.Sprintf("c11: newest group is [%v,%v), expected start %d", newest.StartTime, newest.EndTime, cfg.b(1)))
+		}
+		c11Must(w.data.ReSharding(&meta2.ReShardingInfo{Database: c11DB, Rp: c11RP, ShardGroupID: newest.ID, SplitTime: cfg.split(), Bounds: cfg.Bounds}))
+	}
+
+	// phase 2: several batch orders, then one point per batch
+	for oi, ord := range c11Orders(pids2, points) {
+		sent, err := w.write(points, ord)
+		checkWrite(fmt.Sprintf("phase2/order%d", oi), pids2, sent, err)
+	}
+	for _, pid := range pids2 {
+		sent, err := w.write(points, []int{pid})
+		checkWrite("phase2/single", []int{pid}, sent, err)
+	}
+	_ = first
+
+	// group spans: half-open, aligned, disjoint for hash sharding
+	rp, _ := w.data.RetentionPolicy(c11DB, c11RP)
+	if owner {
+		rep.Max("max_groups", int64(len(rp.ShardGroups)))
+		for i := range rp.ShardGroups {
+			rep.Max("max_shards_per_group", int64(len(rp.ShardGroups[i].Shards)))
+		}
+	}
+
+	storedList := make([]c11Stored, 0, len(stored))
+	for s := range stored {
+		storedList = append(storedList, s)
+	}
+	sort.Slice(storedList, func(i, j int) bool {
+		if storedList[i].pid != storedList[j].pid {
+			return storedList[i].pid < storedList[j].pid
+		}
+		return storedList[i].shard < storedList[j].shard
+	})
+
+	// read side
+	for ci, cc := range conds {
+		if !mine(ci) {
+			continue
+		}
+		if rep.Expired() {
+			return
+		}
+		c11CheckCond(rep, w, cfg, tier, points, storedList, cc)
+		// the programmatic tree differs from the parsed one only where the text needs parentheses
+		if !cc.plain && cc.tree.atoms() == 3 {
+			c11CheckDirect(rep, w, cfg, tier, points, storedList, cc)
+		}
+	}
+}
+
+func c11CheckCond(rep *kit.Report, w *c11World, cfg c11Config, tier string, points []c11Point, stored []c11Stored, cc c11CondCase) {
+	text := cc.text(cfg)
+	name := cc.name()
+	shards, tmin, tmax, condStr, err := w.mapQuery(text)
+	if err != nil {
+		rep.Count("queries_rejected_by_planner", 1)
+		rep.Sample(3, map[string]string{"rejected": text, "err": err.Error()})
+		return
+	}
+	rep.Count("queries_mapped", 1)
+	// all shards of the groups that overlap the mapped time range (what "no pruning" would consult)
+	groups, _ := w.data.ShardGroupsByTimeRange(c11DB, c11RP, time.Unix(0, tmin), time.Unix(0, tmax))
+	all := 0
+	for i := range groups {
+		all += len(groups[i].Shards)
+	}
+	nMatch, nMiss := 0, 0
+	reported := false
+	mt := cc.tree.matcher(cfg)
+	rep.Eval(int64(len(stored)))
+	for _, s := range stored {
+		p := points[s.pid]
+		if !mt.matches(s.pid, p) {
+			nMiss++
+			continue
+		}
+		nMatch++
+		if shards[s.shard] {
+			continue
+		}
+		if reported {
+			rep.Count("further_matching_points_in_skipped_shards", 1)
+			continue
+		}
+		reported = true
+		if !cc.tree.matches(cfg, p) {
+			panic("c11: tabulated matcher disagrees with direct evaluation")
+		}
+		kind := c11MissKind(cc, false)
+		g := w.groupOf(s.shard)
+		if g != nil && (g.StartTime.UnixNano() > tmax || g.EndTime.UnixNano() <= tmin) {
+			kind = "group_with_match_not_selected"
+		}
+		ids := make([]uint64, 0, len(shards))
+		for id := range shards {
+			ids = append(ids, id)
+		}
+		sort.Slice(ids, func(i, j int) bool { return ids[i] < ids[j] })
+		rep.Violation(kind, cfg.String()+" | WHERE "+name,
+			fmt.Sprintf("point %s is stored in shard %d and satisfies WHERE %s, but the query consults only shards %v (of %d in range; mapped time range [%d,%d], condition passed to the mapper: %s)",
+				p.String(), s.shard, text, ids, all, tmin, tmax, condStr),
+			c11Case{Cfg: cfg, Where: name, Tier: tier})
+	}
+	if nMatch > 0 && nMiss > 0 && len(shards) < all {
+		if rep.DistinctNontrivial(kit.Hash(cfg.String(), name)) {
+			rep.Sample(8, map[string]interface{}{"config": cfg.String(), "where": text, "shards_consulted": len(shards), "shards_in_range": all, "points_matching": nMatch, "points_not_matching": nMiss})
+		}
+		rep.Count("pruned_nontrivial_pairs", 1)
+	}
+	if len(shards) < all {
+		rep.Count("queries_pruned", 1)
+	}
+}
+
+// ast builds the residual condition (time comparisons removed, as ConditionExpr does) as a programmatic tree:
+// nested BinaryExpr nodes without ParenExpr, the form internal callers construct. nil = no residual condition.
+func (n *c11Cond) ast() influxql.Expr {
+	if n.Atom != nil {
+		if n.Atom.Time != nil {
+			return nil
+		}
+		return influxql.MustParseExpr(n.Atom.Text)
+	}
+	l, r := n.L.ast(), n.R.ast()
+	if l == nil {
+		return r
+	}
+	if r == nil {
+		return l
+	}
+	var op influxql.Token = influxql.AND
+	if n.Op == "OR" {
+		op = influxql.OR
+	}
+	return &influxql.BinaryExpr{Op: op, LHS: l, RHS: r}
+}
+
+// c11CheckDirect: the seam below the planner. For every group overlapping the query's time range it calls
+// ShardGroupInfo.TargetShards the way ClusterShardMapper.mapMstShards does (same measurement, shard key info and
+// alive shard list), with the programmatic (ParenExpr-free) tree of the condition.
+func c11CheckDirect(rep *kit.Report, w *c11World, cfg c11Config, tier string, points []c11Point, stored []c11Stored, cc c11CondCase) {
+	ast := cc.tree.ast()
+	if ast == nil {
+		return
+	}
+	name := cc.name()
+	tmin, tmax := cc.tree.timeRange(cfg)
+	groups, err := w.mc.Client.ShardGroupsByTimeRange(c11DB, c11RP, time.Unix(0, tmin), time.Unix(0, tmax))
+	c11Must(err)
+	dbi, err := w.mc.Client.Database(c11DB)
+	c11Must(err)
+	msts, err := w.mc.Client.GetMeasurements(&influxql.Measurement{Database: c11DB, RetentionPolicy: c11RP, Name: c11Mst})
+	c11Must(err)
+	var ski *meta2.ShardKeyInfo
+	if len(dbi.ShardKey.ShardKey) > 0 {
+		ski = &dbi.ShardKey
+	}
+	shards := map[uint64]bool{}
+	all := 0
+	for i := range groups {
+		if ski == nil {
+			ski = msts[0].GetShardKey(groups[i].ID)
+		}
+		alive := w.mc.Client.GetAliveShards(c11DB, &groups[i], true)
+		for _, sh := range groups[i].TargetShards(msts[0], ski, ast, alive) {
+			shards[sh.ID] = true
+		}
+		all += len(groups[i].Shards)
+	}
+	rep.Count("direct_target_shards_queries", 1)
+	reported := false
+	mt := cc.tree.matcher(cfg)
+	rep.Eval(int64(len(stored)))
+	for _, s := range stored {
+		p := points[s.pid]
+		if !mt.matches(s.pid, p) || shards[s.shard] || reported {
+			continue
+		}
+		reported = true
+		ids := make([]uint64, 0, len(shards))
+		for id := range shards {
+			ids = append(ids, id)
+		}
+		sort.Slice(ids, func(i, j int) bool { return ids[i] < ids[j] })
+		rep.Violation("direct_"+c11MissKind(cc, true), cfg.String()+" | TargetShards("+name+")",
+			fmt.Sprintf("point %s is stored in shard %d and satisfies the condition tree %s (programmatic tree: %s), but TargetShards over the groups of [%d,%d] returns only shards %v (of %d)",
+				p.String(), s.shard, cc.tree.name(false), ast.String(), tmin, tmax, ids, all),
+			c11Case{Cfg: cfg, Where: name, Tier: tier, Direct: true})
+	}
 }
 
 func TestVerifC11(t *testing.T) {
+	// the repository's default logger writes below $HOME/.openGemini/logs; the harness logs nothing
+	logger.SetLogger(zap.NewNop())
 	rep := kit.NewReport("C11")
 	defer rep.Save()
+	if kit.ReplayPath() != "" {
+		var c c11Case
+		if err := kit.LoadReplay(&c); err != nil {
+			t.Fatal(err)
+		}
+		thorough := c.Tier == "thorough"
+		var conds []c11CondCase
+		for _, cc := range c11Conds(c11Atoms(thorough)) {
+			if cc.name() == c.Where {
+				conds = append(conds, cc)
+				break
+			}
+		}
+		c11RunConfig(rep, c.Cfg, thorough, true, conds, func(int) bool { return true })
+		return
+	}
 	thorough := kit.Thorough()
 	cfgs := c11Configs(thorough)
 	conds := c11Conds(c11Atoms(thorough))
-	rep.Note("configs=%d conditions=%d", len(cfgs), len(conds))
-	t.Logf("configs=%d conds=%d", len(cfgs), len(conds))
+	rep.Note("configurations=%d conditions=%d", len(cfgs), len(conds))
+	if kit.Shard() == 0 {
+		rep.Count("configurations", int64(len(cfgs)))
+		rep.Count("conditions", int64(len(conds)))
+	}
+	for i, cfg := range cfgs {
+		if rep.Expired() {
+			return
+		}
+		base := i * len(conds)
+		c11RunConfig(rep, cfg, thorough, kit.Mine(i), conds, func(ci int) bool { return kit.Mine(base + ci) })
+	}
 }
